@@ -19,15 +19,20 @@ func main() {
 	workers := flag.Int("workers", 0, "parallel workers")
 	maxSteps := flag.Int64("maxsteps", 0, "SSA steps per path")
 	maxPaths := flag.Int64("maxpaths", 0, "paths per harness (0 = unlimited)")
-	solver := flag.String("solver", "z3", "z3 | z3-new | cvc5")
+	solver := flag.String("solver", "z3-new", "z3 | z3-new | cvc5")
 	timeout := flag.Duration("timeout", 10*time.Second, "per-query solver timeout")
 	out := flag.String("out", "", "write JSON reports to this file")
 	overlay := flag.String("overlay", "", "JSON file {\"path\": \"replacement file\"} of source overlays")
+	tier := flag.String("tier", "quick", "quick | thorough")
+	maxDec := flag.Int("maxdecisions", 0, "symbolic decisions per path")
 	caseCap := flag.Int("casecap", 0, "cap for case-splitting symbolic sizes/indices")
 	flag.Parse()
 
 	cfg := interp.Config{Dir: *dir, HarnessPkg: *pkg, Workers: *workers, MaxSteps: *maxSteps,
-		MaxPaths: *maxPaths, Solver: *solver, Timeout: *timeout, CaseCap: *caseCap, Patterns: []string{"."}}
+		MaxPaths: *maxPaths, Solver: *solver, Timeout: *timeout, CaseCap: *caseCap, MaxDecisions: *maxDec, Patterns: []string{"."}}
+	if *tier == "thorough" {
+		cfg.Tier = 1
+	}
 	if *overlay != "" {
 		b, err := os.ReadFile(*overlay)
 		if err != nil {
